@@ -19,6 +19,8 @@ type Rec struct {
 	Nest    bool   // xml/json: field a contains a nested a
 	Attr    string // xml: attribute k on the record element (which has element children)
 	Attr2   string // xml: a second attribute j (two attributes: a Go map in idr.JSONify2)
+	Deep    bool   // json with Env.Deep: the record is the value of a key "n"
+	Wrap    bool   // xml/json with Env.Deep: the record sits one level deeper (inside a <batch>)
 	NS      string // xml: the record binds this prefix to uri://items and has a child <NS:q>
 	Raw     string // csv: the row as written (reader-level failures: bare quote, garbage after quote)
 }
@@ -28,6 +30,8 @@ type Env struct {
 	Header  bool   // csv2 H line, edi HDR, fixedlength2 H line, xml/json context element
 	Trailer bool   // edi TRL
 	Ctx     string // xml/json: value of the context element (only when Header)
+	Deep    bool   // xml/json: the stream target matches at more than one depth (//n) and the
+	// records really sit at different depths (Rec.Wrap)
 }
 
 type Fmt struct {
@@ -87,7 +91,14 @@ func (f Fmt) RenderRec(r Rec) string {
 		if _, err := strconv.Atoi(r.B); err == nil && len(r.B)%2 == 0 {
 			b = r.B // a JSON number (typed value node) instead of a string
 		}
-		return fmt.Sprintf(`{"a":%s,"b":%s,"c":%s,"z":[true,null,1.5]}`, a, b, jstr(r.C))
+		x := fmt.Sprintf(`{"a":%s,"b":%s,"c":%s,"z":[true,null,1.5]}`, a, b, jstr(r.C))
+		if r.Deep {
+			x = `{"n":` + x + `}`
+			if r.Wrap {
+				x = `{"batch":` + x + `}`
+			}
+		}
+		return x
 	case "xml":
 		attr := ""
 		if r.Attr != "" {
@@ -107,7 +118,11 @@ func (f Fmt) RenderRec(r Rec) string {
 			attr += ` xmlns:` + r.NS + `="uri://items"`
 			q = "<" + r.NS + ":q>q" + xmlEsc(r.C) + "</" + r.NS + ":q>"
 		}
-		return fmt.Sprintf("<n%s><a>%s</a><b>%s</b><c>%s</c>%s</n>", attr, a, xmlEsc(r.B), xmlEsc(r.C), q)
+		x := fmt.Sprintf("<n%s><a>%s</a><b>%s</b><c>%s</c>%s</n>", attr, a, xmlEsc(r.B), xmlEsc(r.C), q)
+		if r.Wrap {
+			x = "<batch>" + x + "</batch>"
+		}
+		return x
 	}
 	panic("unknown format " + f.Name)
 }
@@ -197,6 +212,15 @@ func GenRec(r *vh.Rng, f Fmt, ok bool) Rec {
 		if r.Chance(0.5) {
 			rec.Attr2 = r.PickStr("7", "8", "jj")
 		}
+	}
+	return rec
+}
+
+// Place puts a record into the envelope's layout (depth) - call after GenRec / MakeFailing.
+func (f Fmt) Place(r *vh.Rng, env Env, rec Rec) Rec {
+	if env.Deep && (f.Name == "xml" || f.Name == "json") {
+		rec.Deep = f.Name == "json"
+		rec.Wrap = r.Chance(0.4)
 	}
 	return rec
 }
@@ -315,11 +339,15 @@ var groups = []group{
 	{"js-throw", []string{
 		`"thr1": {"custom_func":{"name":"javascript","ignore_error":true,"args":[{"const":"(function(){throw new Error('boom')})()"},{"const":"discount"},{"xpath":"b"},{"const":"leak"},{"const":"L"}]}}`,
 		`"thr2": {"custom_func":{"name":"javascript","ignore_error":true,"args":[{"const":"nosuchfunction(discount)"},{"const":"discount"},{"xpath":"c","keep_empty_or_null":true}]}}`,
-		`"thr3": {"custom_func":{"name":"javascript_with_context","ignore_error":true,"args":[{"const":"null.x"},{"const":"discount"},{"const":"77","type":"int"}]}}`}, nil, ""},
+		`"thr3": {"custom_func":{"name":"javascript_with_context","ignore_error":true,"args":[{"const":"null.x"},{"const":"discount"},{"const":"77","type":"int"}]}}`,
+		`"thr4": {"custom_func":{"name":"javascript","ignore_error":true,"args":[{"const":"(function(){throw 'x'})()"},{"const":"Math"},{"xpath":"c","keep_empty_or_null":true},{"const":"JSON"},{"const":"J"}]}}`}, nil, ""},
+	// a failing field whose name sorts AFTER the ancestor-anchored declarations (anc, up)
+	{"late-cast", []string{`"zcast": {"xpath":"b","type":"int"}`}, nil, ""},
 	// a script reading globals it was not passed
 	{"js-global-probe", []string{
 		`"probe": {"custom_func":{"name":"javascript","args":[{"const":"typeof discount === 'undefined' ? 0 : discount"}]}}`,
-		`"probe2": {"custom_func":{"name":"javascript","args":[{"const":"(typeof leak === 'undefined' ? 'none' : leak) + '/' + (typeof _node === 'undefined' ? 'none' : 'node')"}]}}`}, nil, ""},
+		`"probe2": {"custom_func":{"name":"javascript","args":[{"const":"(typeof leak === 'undefined' ? 'none' : leak) + '/' + (typeof _node === 'undefined' ? 'none' : 'node')"}]}}`,
+		`"probe3": {"custom_func":{"name":"javascript","args":[{"const":"(typeof JSON === 'object' && typeof JSON.stringify === 'function' ? 'json' : 'nojson') + '/' + (typeof Math === 'object' && typeof Math.max === 'function' ? 'math' : 'nomath')"}]}}`}, nil, ""},
 	// xml: the same namespace URI under different prefixes in different records
 	{"xmlns", []string{`"qa": {"xpath":"a:q"}`, `"qb": {"xpath":"b:q"}`, `"qany": {"xpath":"*[local-name()='q']"}`}, nil, "xml"},
 }
@@ -401,6 +429,9 @@ func (f Fmt) SchemaWith(r *vh.Rng, must []string, extra []string, env Env) (stri
 	if f.Name == "json" && env.Header {
 		finalXPath = "/recs/*"
 	}
+	if (f.Name == "json" || f.Name == "xml") && env.Deep {
+		finalXPath = "//n"
+	}
 	decls, feats := GenDecls(r, f.Name, finalXPath, must, extra)
 	s := `{"parser_settings": ` + string(top["parser_settings"])
 	if fd, ok := top["file_declaration"]; ok {
@@ -417,15 +448,34 @@ func (f Fmt) SchemaWith(r *vh.Rng, must []string, extra []string, env Env) (stri
 func (f Fmt) AncestorField() string {
 	switch f.Name {
 	case "xml":
-		return `"up": {"xpath":"..","object":{"first":{"xpath":"n/a"},"cnt":{"xpath":"n/c"}}}`
+		return `"up": {"xpath":"..","object":{"first":{"xpath":"n/a"},"cnt":{"xpath":"n/c"}}}, "anc": {"xpath":"..","object":{"k1":{"xpath":"n/c"},"k2":{"xpath":"n/a"},"k3":{"xpath":"n/b"}}}`
 	case "json":
-		return `"up": {"xpath":"..","object":{"first":{"xpath":"*/a"},"cnt":{"xpath":"*/c"}}}`
+		return `"up": {"xpath":"..","object":{"first":{"xpath":"*/a"},"cnt":{"xpath":"*/c"}}}, "anc": {"xpath":"..","object":{"k1":{"xpath":"*/c"},"k2":{"xpath":"*/a"},"k3":{"xpath":"*/b"}}}`
 	}
 	return ""
 }
 
 // Has reports whether the generated FINAL_OUTPUT has the named field.
 func (f Features) Has(field string) bool { return f["field:"+field] }
+
+// AncestorManyField: k distinct declarations (distinct texts, hence distinct hashes), all evaluated
+// on the long-lived ancestor and all yielding the record's c.
+func (f Fmt) AncestorManyField(k int) string {
+	sel := ""
+	switch f.Name {
+	case "xml":
+		sel = "n/c"
+	case "json":
+		sel = "*/c"
+	default:
+		return ""
+	}
+	var ks []string
+	for i := 1; i <= k; i++ {
+		ks = append(ks, fmt.Sprintf(`"k%02d": {"xpath":"%s[%d > 0]","keep_empty_or_null":true}`, i, sel, i))
+	}
+	return `"anc2": {"xpath":"..","object":{` + strings.Join(ks, ",") + `}}`
+}
 
 // CtxField is a FINAL_OUTPUT field addressing the non-target context (xml/json with Env.Header).
 func (f Fmt) CtxField() string {
